@@ -1,0 +1,26 @@
+//go:build verif
+
+package keys
+
+// Contracts checked by /verif's govc.  Comments only; build tag "verif".
+
+//@ unit keys
+//@
+//@ extern (client.FieldKind).* -> (r)
+//@   pure
+//@ extern (client.ScalarArrayKind).* -> (r)
+//@   pure
+//@
+//@ // ===== C17: an index key is the concatenation of '/'-separated components; every component is written
+//@ // and read back with the direction of its own field, and the trailing document id is always ascending
+//@ func EncodeIndexDataStoreKey -> (r)
+//@   assert before call#1 EncodeFieldValue: arg1 == rangeslice1[rangeindex1+1].Value && arg2 == rangeslice1[rangeindex1+1].Descending
+//@   loop 1 ranges key.Fields
+//@   loop 1 every-iteration call#1 EncodeFieldValue
+//@   assert before call#1 EncodeUvarintAscending: arg1 == uint64(key.CollectionShortID)
+//@   assert before call#2 EncodeUvarintAscending: arg1 == uint64(key.IndexID)
+//@   tags C17
+//@ func DecodeIndexDataStoreKey -> (k, err)
+//@   assert before call#1 DecodeFieldValue: len(key.Fields) < len(indexDesc.Fields) ==> arg1 == indexDesc.Fields[len(key.Fields)].Descending
+//@   assert before call#1 DecodeFieldValue: len(key.Fields) >= len(indexDesc.Fields) ==> !arg1 && len(key.Fields) == len(indexDesc.Fields)
+//@   tags C17
